@@ -402,10 +402,13 @@ func c19Run(r *core.Run) {
 					r.Probe("explicit_zero_flag_overrides_config")
 				}
 			case 3:
-				args = append(args, fmt.Sprintf("-%s=0x%x", name, have))
+				// the tool's documented spellings: decimal (leading zeros are still decimal), 0x, 0o, 0b
+				sp := []string{fmt.Sprintf("0x%x", have), fmt.Sprintf("0o%o", have), fmt.Sprintf("0b%b", have), fmt.Sprintf("0%d", have), fmt.Sprintf("000%d", have), fmt.Sprintf("0X%X", have)}[t.Draw(6)]
+				args = append(args, "-"+name+"="+sp)
 				rec.flagSet, rec.flagMin = true, have
+				r.Probe("number_spelling_variants")
 			case 4:
-				bad := []string{"lots", "65536", "131072", "666666", "0x10000"}[t.Draw(5)]
+				bad := []string{"lots", "65536", "131072", "666666", "0x10000", "1_0", "0x_1", "-1", "1e3", "0x"}[t.Draw(10)]
 				args = append(args, "-"+name+"="+bad)
 				flagMalformed = name
 				if bad != "lots" {
@@ -783,9 +786,9 @@ func init() {
 		RealStub: map[string]string{"tools/check binary": "real (built with -tags verif: collateral getter reads the simulated PCS from files)", "verify / validate / abi": "real", "disk (config, quote, bundles)": "real files in a per-run temp dir", "network": "simulated PCS through the hook, or the sandbox's sealed network", "trust.SimpleHTTPSGetter": "exercised only in the unreachable-network case"},
 		Runs: func(tier string) int {
 			if tier == "thorough" {
-				return 12000
+				return 20000
 			}
-			return 400
+			return 1200
 		},
 		Run:       c19Run,
 		MustProbe: []string{"exit_0", "exit_3", "exit_4", "flag_overrides_config_field", "config_sub_policy_absent"},
